@@ -90,9 +90,12 @@ def build_chain_model(world, root_index, outer_ns=None):
                 else:
                     raise ValueError(f'world bug: required parameter {p["name"]} of {c["py"]} has no value in {cfg["name"]}')
                 allp[p['name']] = v
-                if p.get('ignore') or p.get('placeholder'):
+                if p.get('ignore'):
                     continue
-                params[p['name']] = v
+                if not p.get('placeholder'):
+                    # a placeholder-bearing string reaches the task substituted, but is persisted in its placeholder form:
+                    # by the property it has no influence on the result, so the provenance record leaves it out
+                    params[p['name']] = v
                 if p.get('dpd') and p['default'] != NO_DEFAULT and _pyeq(v, p['default']['v']):
                     continue
                 persisted[p['name']] = v
@@ -149,8 +152,30 @@ def _pyeq(a, b):
     return type(a) is type(b) and a == b
 
 
+OBJ_DEFAULTS = {'PObj': {'b': 'x'}, 'PDef': {'c': 1, 'd': None}, 'PSet': {}}
+
+
+def canon_param(v):
+    """canonical form of a parameter value: JSON-like, or a parameter-object definition {'class':..,'kwargs':..}.
+    Two definitions denote the same object (hence the same computation) when they agree after filling constructor
+    defaults; arguments ignored for persistence (verbose/debug) are not part of the computation."""
+    if isinstance(v, dict) and 'class' in v:
+        cname = v['class'].split('.')[-1]
+        kw = dict(OBJ_DEFAULTS.get(cname, {}))
+        kw.update(v.get('kwargs') or {})
+        kw = {k: canon_param(x) for k, x in kw.items() if k not in ('verbose', 'debug')}
+        if cname == 'PSet':
+            kw = {k: (sorted(x, key=repr) if isinstance(x, list) else x) for k, x in kw.items()}
+        return {'$obj': [cname, kw]}
+    if isinstance(v, list):
+        return [canon_param(x) for x in v]
+    if isinstance(v, dict):
+        return {'$d': {k: canon_param(x) for k, x in v.items()}}
+    return V.canon_json(v)
+
+
 def _pcanon(params):
-    return {k: V.canon_json(v) for k, v in params.items()}
+    return {k: canon_param(v) for k, v in params.items()}
 
 
 def descendants(insts, names):
